@@ -279,7 +279,7 @@ func ruleGOB(c *Ctx) {
 	}
 	// GOB.2: registered structs have only exported fields, tabled exceptions, or custom encoding
 	exceptions := map[string]string{
-		"String.runeStr":  "lazily rebuilt cache",
+		"String.runeStr":        "lazily rebuilt cache",
 		"parser.SourceFile.set": "compile-time back-pointer; the VM resolves positions through Bytecode.FileSet, not through it (noted TODO in Decode)",
 	}
 	for _, name := range sortedKeys(reg) {
